@@ -40,6 +40,10 @@ type Region struct {
 	// KillAfterProbe > 0: the next region probes are answered normally and the
 	// server then drops the connection at once (it crashes right after the probe).
 	KillAfterProbe int
+	// ProbeExc: while set, every region probe (an existence-only get without a marker) of this region is answered
+	// with this application-level exception - a cluster that denies the probe's row to this user, say - while
+	// ordinary requests are served
+	ProbeExc *Exc
 }
 
 // Contains says whether row lies in [Start, Stop).
@@ -84,6 +88,8 @@ type Outcome struct {
 type MetaRowEdit struct {
 	RowKey []byte
 	Server []byte
+	// Stop, if non-nil, replaces the end key in the (otherwise sound) info:regioninfo value of the rows served
+	Stop []byte
 }
 
 // Exec is one request (or multi action) as seen by a server.
@@ -197,6 +203,9 @@ type Cluster struct {
 	ZKHold    bool
 	MetaScans int
 	MetaHold  bool
+	// MetaHoldPrefix: hold only the hbase:meta scans whose start row begins with these bytes ("t,x": lookups for
+	// rows of table t beginning with x), everything else is answered
+	MetaHoldPrefix []byte
 	MetaErr   []Exc // consumed one per meta scan
 
 	Tape    []byte
